@@ -86,7 +86,7 @@ def lattice_xyz(c, perturb):
     return (i + 0.0625 * ((3 * i + 5 * j + 7 * k) % 4 - 1.5) * 0.5, j + 0.03125 * ((5 * i + 2 * j + 3 * k) % 5 - 2), k + 0.0625 * ((i + 4 * j + 6 * k) % 3 - 1))
 
 
-def build_frames(st, perturb, field, kind='hex', rng=None):
+def build_frames(st, perturb, field, kind='hex', rng=None, scale=1.0):
     nodes = {nid: tuple(c) for nid, c in st['out']['nodes']}
     rows = []
     for eid, conn in sorted(st['out']['elems']):
@@ -111,7 +111,7 @@ def build_frames(st, perturb, field, kind='hex', rng=None):
                 groups.append([(e, n)])
         rows = [r for g in reversed(groups) for r in g]
     g, c0 = field
-    xyz = {nid: lattice_xyz(c, perturb) for nid, c in nodes.items()}
+    xyz = {nid: tuple(scale * a for a in lattice_xyz(c, perturb)) for nid, c in nodes.items()}
     df = pd.DataFrame({'x': [xyz[n][0] for _, n in rows], 'y': [xyz[n][1] for _, n in rows], 'z': [xyz[n][2] for _, n in rows]},
                       index=pd.MultiIndex.from_tuples(rows, names=['element_id', 'node_id']))
     df['f'] = g[0] * df.x + g[1] * df.y + g[2] * df.z + c0
@@ -131,10 +131,11 @@ def check_meshops(st, fs, known):
         for kind in ('hex', 'tet', 'mixed'):
             if kind == 'mixed' and len(st['out']['elems']) < 2:
                 continue
-            for field in fields:
-                df, nodes, xyz = build_frames(st, True, field, kind)
+            # the second field is also evaluated on the same mesh expressed in a 4096 times larger length unit (element edges of 2.4e-4)
+            for field, scale in [(fields[0], 1.0), (fields[1], 1.0), (fields[1], 2.0 ** -12)]:
+                df, nodes, xyz = build_frames(st, True, field, kind, scale=scale)
                 g = field[0]
-                case = {**case0, 'elements': kind, 'gradient': list(g)}
+                case = {**case0, 'elements': kind, 'gradient': list(g), 'length_scale': scale}
                 try:
                     gr = df.gradient_3D.gradient_of('f')
                     if set(gr.index) != set(nodes) or not close(gr.to_numpy(), np.tile(g, (len(gr), 1))):
